@@ -282,7 +282,18 @@ impl<Front: SocketHandler> ConnectionH1<Front> {
         );
         self.position.count_bytes_in_counter(size);
         self.position.count_bytes_in(parts.metrics, size);
-        if update_readiness_after_read(size, status, &mut self.readiness) {
+        // An interim response (100 / 103) and the response that follows it can
+        // arrive in one read. The parser stops after the interim; once the
+        // frontend has written it and cleared the buffer, the rest is still in
+        // the storage and the socket has nothing new to say: parse what is
+        // already here instead of waiting for bytes that will not come.
+        let leftover_after_interim = size == 0
+            && status == SocketResult::WouldBlock
+            && self.position.is_client()
+            && kawa.is_initial()
+            && !kawa.storage.unparsed_data().is_empty();
+        if update_readiness_after_read(size, status, &mut self.readiness) && !leftover_after_interim
+        {
             // size=0: the socket returned EOF (Closed) or WouldBlock.
             // For a close-delimited backend response (no Content-Length, no
             // chunked), a graceful EOF IS the end-of-body signal. Terminate
@@ -614,10 +625,12 @@ impl<Front: SocketHandler> ConnectionH1<Front> {
                             kawa.clear();
                             stream.metrics.backend_stop();
                             if let StreamState::Linked(token) = stream.state {
-                                endpoint
-                                    .readiness_mut(token)
-                                    .interest
-                                    .insert(Ready::READABLE);
+                                // (the final response may already sit in the
+                                // buffer behind the interim: no socket event
+                                // will announce it)
+                                let backend = endpoint.readiness_mut(token);
+                                backend.interest.insert(Ready::READABLE);
+                                backend.signal_pending_read();
                             }
                             return MuxResult::Continue;
                         }
@@ -628,10 +641,11 @@ impl<Front: SocketHandler> ConnectionH1<Front> {
                             // Calling it here would double-decrement http.active_requests.
                             if let StreamState::Linked(token) = stream.state {
                                 // after a 103 early hints, we expect the backend to send its response
-                                endpoint
-                                    .readiness_mut(token)
-                                    .interest
-                                    .insert(Ready::READABLE);
+                                // (which may already sit in the buffer behind
+                                // the interim: no socket event will announce it)
+                                let backend = endpoint.readiness_mut(token);
+                                backend.interest.insert(Ready::READABLE);
+                                backend.signal_pending_read();
                                 kawa.clear();
                                 stream.metrics.backend_stop();
                                 return MuxResult::Continue;
